@@ -579,7 +579,8 @@ func TestPingPongAllLengths(t *testing.T) {
 }
 
 var (
-	validReason   = []byte("bye \xe2\x82\xac")
+	// every boundary scalar value of the UTF-8 encoding forms, U+FFFD included
+	validReason   = []byte("bye \u007f\u0080\u07ff\u0800\u20ac\ud7ff\ue000\ufffd\ufffe\uffff\U00010000\U0010ffff")
 	invalidReason = []byte("bye \xe2\x82")
 )
 
@@ -643,7 +644,7 @@ func TestCloseBoundaries(t *testing.T) {
 	}
 	for _, code := range []int{0, 1, 999, 1000, 1001, 1002, 1003, 1004, 1005, 1006, 1007, 1008, 1009, 1010, 1011, 1012, 1013, 1014, 1015, 1016,
 		1100, 2000, 2999, 3000, 3999, 4000, 4999, 5000, 32768, 65535} {
-		for _, reason := range [][]byte{nil, validReason, invalidReason, []byte("\xff"), []byte("ok")} {
+		for _, reason := range [][]byte{nil, validReason, invalidReason, []byte("\xff"), []byte("ok"), []byte("\ufffd"), []byte("\U0010ffff\ufffe")} {
 			payloads = append(payloads, append([]byte{byte(code >> 8), byte(code)}, reason...))
 		}
 	}
@@ -677,7 +678,7 @@ func TestCloseBoundaries(t *testing.T) {
 		}
 	}
 	hx.EvalN(n)
-	hx.Part("close: empty, all 256 one-byte payloads, 30 boundary codes x 5 reasons, every length 2..125 x side x every entry point x 2 chunkings", int64(n), true)
+	hx.Part("close: empty, all 256 one-byte payloads, 30 boundary codes x 7 reasons, every length 2..125 x side x every entry point x 2 chunkings", int64(n), true)
 	tl.flush("enum/")
 }
 
@@ -800,6 +801,8 @@ func TestNotControlFrame(t *testing.T) {
 // ---------------------------------------------------------------------------
 // random cases
 
+var boundaryScalars = []rune{0x00, 0x41, 0x7f, 0x80, 0x7ff, 0x800, 0xd7ff, 0xe000, 0xfffd, 0xfffe, 0xffff, 0x10000, 0x10ffff}
+
 func drawClosePayload(t *rapid.T) []byte {
 	switch rapid.IntRange(0, 9).Draw(t, "close.kind") {
 	case 0:
@@ -822,7 +825,13 @@ func drawClosePayload(t *rapid.T) []byte {
 	switch rapid.IntRange(0, 3).Draw(t, "close.reason") {
 	case 0:
 	case 1:
-		p = append(p, gen.ValidText(t, "close.text", 123)...)
+		if rapid.Bool().Draw(t, "close.boundary") {
+			for k := rapid.IntRange(1, 20).Draw(t, "close.nrunes"); k > 0; k-- {
+				p = utf8.AppendRune(p, rapid.SampledFrom(boundaryScalars).Draw(t, "close.rune"))
+			}
+		} else {
+			p = append(p, gen.ValidText(t, "close.text", 123)...)
+		}
 	case 2:
 		r := gen.ValidText(t, "close.text", 120)
 		p = append(p, r...)
@@ -954,6 +963,121 @@ func TestReadDataSequences(t *testing.T) {
 		if len(pings) >= 2 || (len(pings) >= 1 && closed) {
 			hx.NonTrivial(hx.Hash("seq", ref.Shape(frames), server, len(closeP)), func() interface{} {
 				return map[string]interface{}{"kind": "ReadData sequence", "server": server, "frames": ref.Describe(frames)}
+			})
+		}
+	})
+}
+
+// ReadMessage returns the control frames it met between the fragments of a
+// message; answering each with HandleControlMessage (the documented pairing)
+// after the call must give every ping its own payload back.
+func checkReadMessageInterleaved(server bool, ctl []ref.Frame, chunks []int, eofWD bool, keyOf func(i int) [4]byte) string {
+	state := ws.StateClientSide
+	if server {
+		state = ws.StateServerSide
+	}
+	mk := func(i int, op byte, fin bool, p []byte) ref.Frame {
+		return ref.Frame{H: ref.Header{Fin: fin, Op: op, Masked: server, Mask: keyOf(i)}, Payload: p}
+	}
+	frames := []ref.Frame{mk(0, ref.OpText, false, []byte("ab"))}
+	for i, c := range ctl {
+		frames = append(frames, mk(i+1, c.H.Op, true, c.Payload))
+	}
+	frames = append(frames, mk(len(ctl)+1, ref.OpCont, true, []byte("cd")))
+	src := tx.NewSrc(ref.EncodeAll(frames), chunks)
+	src.EOFWithData = eofWD
+	msgs, err := wsutil.ReadMessage(src, state, nil)
+	if err != nil || len(msgs) != len(ctl)+1 {
+		return fmt.Sprintf("ReadMessage on a valid stream: %d messages, err=%v", len(msgs), err)
+	}
+	if last := msgs[len(ctl)]; last.OpCode != ws.OpText || string(last.Payload) != "abcd" {
+		return fmt.Sprintf("ReadMessage delivered the data message as op=%#x %q", byte(last.OpCode), last.Payload)
+	}
+	for i, c := range ctl {
+		rec := tx.NewRec()
+		herr := wsutil.HandleControlMessage(rec, state, msgs[i])
+		if byte(msgs[i].OpCode) != c.H.Op {
+			return fmt.Sprintf("control message %d has opcode %#x, frame %d was %#x", i, byte(msgs[i].OpCode), i, c.H.Op)
+		}
+		if _, bad := judge(ctlCase{Op: c.H.Op, Payload: c.Payload, Server: server}, rec.Bytes(), herr); bad != "" {
+			return fmt.Sprintf("control frame %d of %d (payload %x): %s", i, len(ctl), c.Payload, bad)
+		}
+	}
+	return ""
+}
+
+func TestReadMessageInterleaved(t *testing.T) {
+	rand.Seed(14)
+	lens := []int{0, 1, 2, 7, 125}
+	n := 0
+	key := func(i int) [4]byte { return [4]byte{byte(i), 0x6c, byte(7 * i), 0xf1} }
+	var run func(ctl []ref.Frame, depth int) bool
+	run = func(ctl []ref.Frame, depth int) bool {
+		if len(ctl) >= 2 {
+			for v := 0; v < 8; v++ {
+				n++
+				if msg := checkReadMessageInterleaved(v&1 != 0, ctl, chunkPlans[(v>>1)&1], v&4 != 0, key); msg != "" {
+					hx.Failf(t, map[string]interface{}{"server": v&1 != 0, "control_frames": ref.Describe(ctl), "chunks": chunkPlans[(v>>1)&1], "eof_with_data": v&4 != 0}, "%s", msg)
+					return false
+				}
+			}
+			if len(ctl) >= 2 && len(ctl[0].Payload) > 0 && len(ctl[1].Payload) > 0 {
+				hx.NonTrivial(hx.Hash("rm-inter", ref.Shape(ctl), len(ctl[0].Payload), len(ctl[1].Payload)), func() interface{} {
+					return map[string]interface{}{"kind": "ReadMessage+HandleControlMessage, several intermediate control frames", "control_frames": ref.Describe(ctl)}
+				})
+			}
+		}
+		if depth == 3 {
+			return true
+		}
+		for _, l := range lens {
+			for _, op := range []byte{ref.OpPing, ref.OpPong} {
+				if op == ref.OpPong && l != 2 {
+					continue
+				}
+				f := ref.Frame{H: ref.Header{Fin: true, Op: op}, Payload: payloadOf(l, byte(0x31*(depth+1)))}
+				if !run(append(ctl[:len(ctl):len(ctl)], f), depth+1) {
+					return false
+				}
+			}
+		}
+		return true
+	}
+	if !run(nil, 0) {
+		return
+	}
+	hx.EvalN(n)
+	hx.Part("ReadMessage + HandleControlMessage: 2..3 control frames (ping lengths {0,1,2,7,125}, pong) inside one fragmented message x side x chunking x EOF-with-data", int64(n), true)
+	tally{"enum/readmessage-interleaved/every-ping-own-payload": n}.flush("")
+}
+
+func TestReadMessageInterleavedRandom(t *testing.T) {
+	hx.Check(t, 3, func(t *rapid.T) {
+		rand.Seed(rapid.Int64().Draw(t, "randseed"))
+		server := rapid.Bool().Draw(t, "server")
+		var ctl []ref.Frame
+		pings := 0
+		for k := rapid.IntRange(2, 4).Draw(t, "nctl"); k > 0; k-- {
+			f := gen.CtlFrame(t, "ctl", false)
+			if f.H.Op == ref.OpPing {
+				pings++
+			}
+			ctl = append(ctl, f)
+		}
+		keys := make([][4]byte, len(ctl)+2)
+		for i := range keys {
+			keys[i] = gen.Key(t, "key")
+		}
+		chunks := gen.Chunks(t, "chunks")
+		eofWD := rapid.Bool().Draw(t, "eofwd")
+		hx.Eval()
+		if msg := checkReadMessageInterleaved(server, ctl, chunks, eofWD, func(i int) [4]byte { return keys[i] }); msg != "" {
+			t.Fatalf("%s\nserver=%v control frames: %v chunks=%v", msg, server, ref.Describe(ctl), chunks)
+		}
+		hx.Class(fmt.Sprintf("readmessage-interleaved/random/pings=%d/server=%v", pings, server))
+		if pings >= 2 {
+			hx.NonTrivial(hx.Hash("rm-inter-rand", ref.Shape(ctl), hx.Hash(ref.EncodeAll(ctl)), server), func() interface{} {
+				return map[string]interface{}{"kind": "ReadMessage+HandleControlMessage random", "server": server, "control_frames": ref.Describe(ctl)}
 			})
 		}
 	})
